@@ -16,7 +16,8 @@ def swarm(rng):
     cfg.update({"clash": True, "clash_pool": POOL[:rng.choice([3, 4, 5])], "pool": POOL,
                 "n_spaces": rng.choice([2, 3, 4]), "n_cells": rng.choice([1, 2]), "n_refs": rng.choice([0, 1, 2]),
                 "n_steps": rng.choice([10, 20, 30]), "p_objref": 0.0, "max_depth": rng.choice([1, 2]),
-                "p_bases": rng.choice([0.3, 0.6]), "rename_multibase": True, "p_autoname": rng.choice([0.0, 0.5]), "p_def": 0.6})
+                "p_bases": rng.choice([0.3, 0.6]), "rename_multibase": True, "p_autoname": rng.choice([0.0, 0.5]), "p_def": 0.6,
+                "p_space_refs": rng.choice([0.0, 0.4])})
     return cfg
 
 
